@@ -272,6 +272,11 @@ CHECKS = {
     technique='runtime monitoring: history monitor with a shadow directory tree; after every call the real tree (os.walk: names, kinds, contents) is compared with the shadow; external changes by the harness',
     text="Histories of 10-40 library(files) calls (queries, creation, deletion, rename, copy, canonicalisation, path_segments in both directions, files written through open/3) run in a scratch directory over ASCII and Unicode names, interleaved with files and directories created or removed by the harness behind the machine's back; every outcome is compared with the shadow tree, documented existence errors are required for missing objects, ill-typed or unbound paths must raise, and after every call the real tree must equal the shadow (so a refused operation must leave the tree unchanged).",
     note='Operations the operating system refuses may fail or raise (the documentation does not say which). Symbolic links and working_directory/2 are not driven.'),
+ 'C47': dict(
+    level='exploration',
+    technique='runtime monitoring: differential (phrase_from_file/2,3 on a file vs phrase/2 on the full character list) with all solutions of both sides compared inside the machine',
+    text='Files of 0 to 12289 characters (ASCII, newlines, 2/3/4-byte characters, and non-UTF-8 bytes read with type(binary)), sized around the 4096-character steps of the lazy list and with needles placed before, on and after the step boundaries, are parsed with 14 grammar bodies (whole text, counting with cuts, all splits at a newline, substring search with backtracking, first/last character, if-then-else, negation, failure after a full scan, early failure, split at a fixed length, pushback lookahead over a step boundary, nested phrase on a prefix); the list of all solutions of phrase_from_file/2,3 must be identical (==) to the list of all solutions of phrase/2 on the same text.',
+    note='NUL bytes and C1 control characters are not used in type(binary) contents (the harness could not pass such literals through the query reader).'),
 }
 
 NOT_APPLICABLE_REASON_UNBUILT = ('check designed in DESIGN.md but not built/validated yet in this session; '
